@@ -1008,6 +1008,40 @@ def part_D(ck, impl, rng, cov):
     return cmds
 
 
+def table_witness(ck, TB):
+    """failing-input search when the regenerated table lemmas fail: ask the extracted model for every integer type pair (register to another register,
+    x86-64 and AArch64) which extension it emits and compare with what the source tables say; -> (S command exhibiting the first difference, text)"""
+    try:
+        T = TB.tables(vlib.REPO)
+        model = ck.ocaml_model("Extract_CallConv.v", ["zconv.ml", "c06_driver.ml"], name="c06")
+    except Exception:
+        return None
+    size = {34: 1, 35: 1, 36: 2, 37: 2, 38: 4, 39: 4, 40: 8, 41: 8}
+    sg = {34: 1, 35: 0, 36: 1, 37: 0, 38: 1, 39: 0, 40: 1, 41: 0}
+    a64 = dict(T["a64_reg_ext"])
+    cases = []
+    for arch in (0, 1):
+        for s_ in size:
+            for d_ in size:
+                cases.append((arch, s_, d_, "Y %d 2 3 5 0 1 R 0 5 %d %d R 0 3 %d %d 1" % (arch, size[s_], sg[s_], size[d_], sg[d_])))
+    ans = run_lines(model, [c[3] for c in cases])
+    for (arch, s_, d_, y), a in zip(cases, ans):
+        f = a.split()
+        if not a.startswith("Y ok") or len(f) < 11: continue
+        got = f[10]                                        # Y ok valid=..,wf=.. X R 0 3 R 0 5 <e> n w wz
+        if arch == 0:
+            want = "S" if (d_, s_) in T["x86_sign_casts"] else "Z"
+        else:
+            if size[s_] >= size[d_]: continue
+            want = {"sxtb": "S", "sxth": "S", "sxtw": "S"}.get(a64.get(s_, ""), "Z")
+        if got != want:
+            env = "1 0 0" if arch == 0 else "2 0 0"
+            cmd = "S %s 0 255 1 %d 0 0 0 0 256 -1 1 %d 3 %d 0" % (env, s_, 6 if size[d_] == 8 else 5, d_)
+            return cmd, ("TypeId %d -> %d on %s: the source table says %s-extension, the model emits %s  [model: %s]" %
+                         (s_, d_, "x86-64" if arch == 0 else "AArch64", "sign" if want == "S" else "zero", "sign" if got == "S" else "zero", a))
+    return None
+
+
 def source_tables(ck):
     """translator tie: regenerate coq/gen/C06Tables.v from the source text of the tree under test (TypeId enumerators, x86 MOVSX / MOVSXD cast pairs, a64
     extension / load switches of emit_arg_move).  Same text as the committed snapshot: its reflection lemmas were just re-checked through
@@ -1031,6 +1065,10 @@ def source_tables(ck):
     if rc != 0:
         import difflib
         d = "\n".join(list(difflib.unified_diff(open(committed).read().split("\n") if os.path.exists(committed) else [], txt.split("\n"), lineterm="", n=0))[:12])
+        witness = table_witness(ck, TB)
+        if witness:
+            ck.violation("C06/source-tables/witness/" + witness[0].replace(" ", "_")[:60], "source table and model disagree on a concrete move: %s" % witness[1],
+                         {"command": witness[0], "broken": "SolverFullModel.fconv vs emit_arg_move (source tables)"})
         ck.violation("C06/source-tables/model-disagrees", "the conversion tables in the source changed and the model's fconv no longer agrees with them (regenerated "
                      "coq/gen/C06Tables.v fails: %s); table diff: %s" % ((out + err)[-500:], d), {"broken": "SolverFullModel.fconv vs x86/a64 emit_arg_move", "diff": d}, no_input=True)
         return "regenerated tables differ from the snapshot and their lemmas FAIL"
